@@ -95,3 +95,10 @@ check("C06", "exploration", "runtime round-trip monitor: harness-encoded logical
       "out-of-line fixed-length columns, multi-line records, buffer-straddling lines, blank lines, and old-csv header verification.",
       "Go csv / bufio normalisations the docs point to (CRLF->LF in quoted fields, CR before LF) are part of the expectation.",
       "DESIGN.md section 3 C06")
+
+check("C07", "exploration", "runtime round-trip monitor: harness-escaped logical segments vs edi.NonValidatingReader grid and schema-level element nodes",
+      "Held on every segment of every generated configuration (quick 3e4 segments / 1.8e5 components, thorough 40x): exact (element, component) grid with "
+      "escaped bytes at the raw reader, unescaped logical strings and one node per repetition through the schema, fatal-unless-default for absent elements, "
+      "for single/multi-byte/two-rune/newline/CRLF delimiters, release characters, ignore_crlf noise and segments up to ~60 KiB.",
+      "Pairwise distinct, non-nested delimiters. Lone trailing release characters and invalid UTF-8 not generated.",
+      "DESIGN.md section 3 C07")
